@@ -141,7 +141,8 @@ def run_chef(mods, ref, cfg, serial, ctx, canary=False, free_T_cell=None, prior=
         if prior is not None:
             # a history in one process: another Chef cooks first (another recipe, another pressure)
             try:
-                ch0 = chefmod.Chef(plotfile='plt', recipe=prior[1], outfile='out0', serial=serial, kept_fields=prior[3], **prior[2])
+                # '@same-out': the earlier run cooked into the very directory the judged run writes (a re-run with another recipe)
+                ch0 = chefmod.Chef(plotfile='plt', recipe=prior[1], outfile='out' if '@same-out' in prior[0] else 'out0', serial=serial, kept_fields=prior[3], **prior[2])
                 if callable(getattr(ch0, 'recipe', None)) and hasattr(ch0.recipe, '__globals__'):
                     ch0.recipe.__globals__['np'] = npfacade.facade
                 ch0.cook()
@@ -248,10 +249,13 @@ def run_case(case):
     # histories: two Chefs in one process with different recipes and pressures; the second one is judged
     HIST = [(('ENT+kept', 'ENT', {'mech': 'm.yaml', 'pressure': 2.0}, 'temp', ['Enthalpy']), ('HRR@3', 'HRR', {'mech': 'm.yaml', 'pressure': 3.0}, 'density', ['HeatRelease'])),
             (('HRR', 'HRR', {'mech': 'm.yaml', 'pressure': 1.0}, None, ['HeatRelease']), ('SDi@5+kept', 'SDi', {'mech': 'm.yaml', 'pressure': 5.0, 'species': ['H2', 'O2']}, 'a', ['DI(H2)', 'DI(O2)'])),
-            (('user-multi+kept', os.path.join(RECIPES, 'r_multi.py'), {}, 'density', ['twice_a_plus_rho', 'a_times_rho']), ('user-single', os.path.join(RECIPES, 'r_single.py'), {}, 'temp', ['a_plus_2rho']))]
+            (('user-multi+kept', os.path.join(RECIPES, 'r_multi.py'), {}, 'density', ['twice_a_plus_rho', 'a_times_rho']), ('user-single', os.path.join(RECIPES, 'r_single.py'), {}, 'temp', ['a_plus_2rho'])),
+            # the earlier run's output directory is the judged run's output directory (stale levels must not survive)
+            (('user-multi+kept@same-out', os.path.join(RECIPES, 'r_multi.py'), {}, 'density', ['twice_a_plus_rho', 'a_times_rho']), ('user-single', os.path.join(RECIPES, 'r_single.py'), {}, 'temp', ['a_plus_2rho'])),
+            (('ENT+kept@same-out', 'ENT', {'mech': 'm.yaml', 'pressure': 2.0}, 'temp', ['Enthalpy']), ('HRR@3', 'HRR', {'mech': 'm.yaml', 'pressure': 3.0}, None, ['HeatRelease']))]
     for hi, (prior, cfg) in enumerate(HIST):
       for serial in (True, False):
-        if common.TIER == 'quick' and (hi + case['k'] + int(serial)) % 2:
+        if common.TIER == 'quick' and (hi + case['k'] + int(serial)) % 2 and hi < 3:
             continue
 
         def hpath(ctx, cfg=cfg, prior=prior, serial=serial):
@@ -365,7 +369,7 @@ def make_replay(ref, v):
         pk = dict(v['prior'][2])
         if 'mech' in pk:
             pk['mech'] = 'h2o2_min.yaml'
-        case['prior'] = {'recipe': v['prior'][1], 'kw': pk, 'kept': v['prior'][3]}
+        case['prior'] = {'recipe': v['prior'][1], 'kw': pk, 'kept': v['prior'][3], 'out': 'out' if '@same-out' in v['prior'][0] else 'out0'}
     with open(os.path.join(d, 'case.json'), 'w') as f:
         json.dump(case, f, indent=1)
     common.write_replay_stub(d)
